@@ -164,7 +164,7 @@ def gen(rnd):
     port = rnd.choice([None, 8080, 443, 80, 9443])
     url = "%s://%s%s/feed" % ("wss" if secure else "ws", host, "" if port is None else ":%d" % port)
     tport = port if port is not None else (443 if secure else 80)
-    pshape = rnd.choice(["plain", "port", "cred", "cred_nopw", "https_proxy", "none", "empty", "other_scheme_only", "from_env"])
+    pshape = rnd.choice(["plain", "port", "cred", "cred_nopw", "https_proxy", "none", "empty", "other_scheme_only", "from_env", "capitals", "no_user"])
     user = pw = None
     pscheme, phost, pport = "http", "proxy.test", None
     if pshape == "port":
@@ -177,6 +177,15 @@ def gen(rnd):
     elif pshape == "https_proxy":
         pscheme = "https"
     purl = "%s://%s%s%s" % (pscheme, ("%s%s@" % (user, ":" + pw if pw is not None else "")) if user else "", phost, "" if pport is None else ":%d" % pport)
+    if pshape == "capitals":
+        # the same proxy, scheme and host spelled in capitals, a path behind the authority: host names compare in lower case
+        pscheme = rnd.choice(["http", "https"])
+        pport = rnd.choice([None, 3128])
+        purl = "%s://%s%s%s" % (pscheme.upper(), phost.upper().replace("PROXY", "Proxy"), "" if pport is None else ":%d" % pport, rnd.choice(["", "/", "/x?y#z"]))
+    elif pshape == "no_user":
+        # a password without a user name: there are no credentials to send
+        purl = "http://:%s@%s:3128" % (rnd.choice(["pw", ""]), phost)
+        pport = 3128
     key = "https" if secure else "http"
     other = "http" if secure else "https"
     if pshape == "none":
@@ -378,8 +387,9 @@ def run(rep, info, model, tier, seed):
         mreq.append([32, steps])
         if sc["_proxy"]:
             phost, pport, purl, user, pw, pscheme = sc["_proxy"]
-            cred = [] if not user else [base64.standard_b64encode((user if pw is None else "%s:%s" % (user, pw)).encode())]
-            mreq.append([31, sc["_target"][0].encode(), sc["_target"][1], cred])
+            # the model reads the proxy URL itself (Url.parse_url: host, port, TLS flag, user name and password) and computes
+            # the Basic credentials token (Digest.proxy_credentials)
+            mreq.append([41, purl.encode(), sc["_target"][0].encode(), sc["_target"][1]])
         else:
             mreq.append([31, b"", 0, []])
     mres = model.run(mreq) if model is not None else None
@@ -428,10 +438,14 @@ def run(rep, info, model, tier, seed):
             code = {"connecting": 0, "connect_fail": 1, "connected": 2}
             i_events = [code[n] for n in names if n in code]
             i_request = len(sends) > 1 and sends[1].startswith(b"GET ")
-            if m_out != impl_out or (sends and sends[0] != mres[2 * i + 1]) or m_events != i_events or m_request != i_request:
+            mp = mres[2 * i + 1]          # (proxy host, proxy port, TLS to the proxy, CONNECT request) as the model reads the proxy URL
+            resolved = [o for o in ops if o[0] == "resolve"][:1]
+            m_where = [mp[0], mp[1]] if mp else None
+            i_where = [resolved[0][1].encode() if not isinstance(resolved[0][1], bytes) else resolved[0][1], resolved[0][2]] if resolved else m_where
+            if m_out != impl_out or (sends and (not mp or sends[0] != mp[3])) or m_events != i_events or m_request != i_request or m_where != i_where:
                 dis += 1
                 if dis == 1:
-                    first = (sc["url"], sc["proxies"], sc["proxy_script"][:5], m_out, impl_out, sends[:1], mres[2 * i + 1])
+                    first = (sc["url"], sc["proxies"], sc["proxy_script"][:5], m_out, impl_out, sends[:1], mp, i_where)
         if len(rep.samples) < 3:
             rep.sample(dict(url=sc["url"], proxies=sc["proxies"], reply=sc["_rk"], events=events))
     if dis and not rep.violations:
